@@ -177,6 +177,14 @@ CHECKS["C05"] = (
     "DESIGN.md 3/C05",
 )
 
+CHECKS["C14"] = (
+    "model_checking",
+    "exhaustive enumeration of all short strings over a hostile alphabet x injection site x dialect x annotation switch; SQLite: executed and read back; all dialects: tokenised by a per-dialect lexer model (token skeleton invariance + literal decodes to the probe)",
+    "All strings of length <= 2 (thorough 3) over 14 symbols (the quote characters of every dialect, backslash, newline, tab, percent, - / * ;, space, a letter, a non-ASCII letter) are injected at 10 sites (string literal in extend / select_rows / is_in list / mapv key / mapv value, concat_rows labels, table name, column name, record-map control-table key values for un-pivot and pivot) and translated for SQLite, PostgreSQL, MySQL, SparkSQL and BigQuery with annotations on and off; on SQLite the query is executed and the value or column name read back must be the probe; for every dialect the text is tokenised by a lexer model of that dialect and must have the token skeleton of the same query built with a harmless string, with the site token decoding to exactly the probe; names containing the dialect's identifier quote must be rejected at generation.",
+    "The four non-SQLite lexer models are mine and part of the trusted base (their rules are stated in the evidence); the SQLite model is cross-checked against the SQLite engine on every case and a disagreement aborts the run.",
+    "DESIGN.md 3/C14",
+)
+
 NOT_YET = "check not built yet in this session (work in progress, see DESIGN.md section 3)"
 
 NOT_APPLICABLE = {
